@@ -518,7 +518,7 @@ def cprover(m, env, e, extra=()):
         pf[m.canon(k)] = [cf(f) for f in v]
     of = {}
     for k, v in env.ev.option_facts.items():
-        of[m.canon(k)] = [cf(f) for f in v]
+        of[(m.canon(k[0]), m.canon(k[1]))] = [cf(f) for f in v]
     return CProver(facts, env.ev, e.ctx, payload_facts=pf, option_facts=of)
 
 
@@ -1073,3 +1073,152 @@ def rule_atom(env, shared):
 def norm_path(p):
     from facts import norm_std
     return norm_std(p) if p else p
+
+
+# ---------------------------------------------------------------------------------------------------
+def rule_complete(env, shared):
+    """COMPLETE: nothing that was reserved inside the source is lost: a pull reports the end only when its reserved
+    begin is at/after LEN, and a chunk's extent is clamped to exactly LEN (not to something smaller)."""
+    m = _m1(env)
+    out = []
+    ev, R, F = env.ev, env.R, env.F
+    # (1) the reservation helper returns None only under LEN <= reserved index
+    for adt, r in R.impl.items():
+        if r["kind"] != "known":
+            continue
+        b = R.method_body(R.T_ATOMIC, "progress_and_get_begin_idx", adt)
+        key = "COMPLETE|%s|reserve->None" % r["name"]
+        if b is None:
+            out.append(Ob("COMPLETE", key, "viol", "-", "reservation helper of %s not found" % r["name"]))
+            continue
+        ctx = env.ctx(b, adt, env.world_of(adt))
+        Lc = m.canon(r["len_term"])
+        bad = None
+        n = 0
+        for bi, blk in enumerate(b.blocks):
+            for s in blk["stmts"]:
+                if s["k"] == "assign" and s["rv"]["k"] == "aggregate" and s["rv"].get("variant_name") == "None":
+                    n += 1
+                    fs = [tuple(m.canon(x) if isinstance(x, tuple) else x for x in f) for f in block_facts(ev, ctx, bi)]
+                    okk = any(f[0] == "le" and len(f) == 3 and f[1] == Lc and f[2][0] == "atomic" and f[2][1] == "fetch_add"
+                              for f in fs)
+                    if not okk:
+                        bad = b.file_line(s["loc"])
+        if n == 0 or bad:
+            out.append(Ob("COMPLETE", key, "viol", bad or b.file_line(),
+                          "the reservation helper of %s can return None for a reserved index that is not known to be >= LEN: "
+                          "positions inside the source are reserved and never delivered" % r["name"]))
+        else:
+            out.append(Ob("COMPLETE", key, "ok", b.file_line(), "None only under LEN <= reserved index", True))
+        # single pulls: get returns None only under LEN <= idx (or through slice::get)
+        g = R.method_body(R.T_ATOMIC, "get", adt)
+        key = "COMPLETE|%s|get->None" % r["name"]
+        if g is not None:
+            gctx = env.ctx(g, adt, env.world_of(adt))
+            t = ev.local(gctx, 0)
+            if t[0] == "call" and t[1] == "slice_get":
+                out.append(Ob("COMPLETE", key, "ok", g.file_line(), "slice::get returns None only out of bounds"))
+            else:
+                bad = None
+                n = 0
+                for bi, blk in enumerate(g.blocks):
+                    for s in blk["stmts"]:
+                        if s["k"] == "assign" and s["rv"]["k"] == "aggregate" and s["rv"].get("variant_name") == "None":
+                            n += 1
+                            fs = [tuple(m.canon(x) if isinstance(x, tuple) else x for x in f)
+                                  for f in block_facts(ev, gctx, bi)]
+                            if not any(f[0] == "le" and len(f) == 3 and f[1] == Lc and f[2] == ("param", 2) for f in fs):
+                                bad = g.file_line(s["loc"])
+                if n == 0 or bad:
+                    out.append(Ob("COMPLETE", key, "viol", bad or g.file_line(),
+                                  "get of %s can return None for an index not known to be >= LEN: a reserved element is "
+                                  "lost" % r["name"]))
+                else:
+                    out.append(Ob("COMPLETE", key, "ok", g.file_line(), "None only under LEN <= index", True))
+    # (2) chunk extents are clamped to exactly LEN
+    for u in m.units:
+        if u.kind == "single" or u.world.get("inner"):
+            continue
+        base = m.base_impl(u.world)
+        if R.impl[base]["kind"] != "known":
+            continue
+        rs = u.reserves()
+        if len(rs) != 1:
+            continue
+        r = list(rs.keys())[0]
+        isbegin = begin_forms(ev, u.ctx, r, None)
+        L = unit_len(u)
+        Lc = m.canon(L) if L is not None else None
+        key = "COMPLETE|%s|clamp=LEN" % u.label
+        found = False
+        for e in u.events:
+            if e.kind != "call":
+                continue
+            mdl = e.info.get("model")
+            a = e.args
+            clamp = None
+            kindx = None
+            if mdl == "index" and len(a) == 2 and R.classify(a[0])[1] in R.impl:
+                rg = unref(a[1])
+                if rg[0] == "agg":
+                    t1, _ = _strip_max(unref(rg[2][1]), isbegin)
+                    ex = _extent(unref(t1), isbegin)
+                    if ex:
+                        clamp = ex[1]
+                        kindx = "idx"
+            elif e.callee.key.endswith("Vec::from_raw_parts") and len(a) == 3:
+                ln = unref(a[1])
+                if ln[0] == "bin" and ln[1] == "Sub":
+                    ex = _extent(unref(ln[2]), isbegin)
+                    if ex:
+                        clamp = ex[1]
+                        kindx = "idx"
+            elif mdl == "Iterator::map" and a and unref(a[0])[0] == "agg" and unref(a[0])[1].endswith("Range::Range") \
+                    and any("ops::Range<" in f["ty"]["s"] for f in R.impl[base]["fields"]):
+                rg = unref(a[0])
+                bv = unref(rg[2][0])
+                evl = unref(rg[2][1])
+                cands = evl[1] if evl[0] == "phi" else (evl,)
+                for c in cands:
+                    c = unref(c)
+                    if c == bv:
+                        # the empty alternative must be chosen only when end <= begin value
+                        of = ev.option_facts.get((evl, c), []) if evl[0] == "phi" else []
+                        if not any(f[0] == "le" and len(f) == 3 and unref(f[2]) == bv for f in of):
+                            clamp = ("unknown", "empty alternative of the range extent is not guarded by end <= begin value")
+                            kindx = "val"
+                        continue
+                    ex = _extent(c, lambda x, bv=bv: unref(x) == bv)
+                    if ex and clamp is None:
+                        clamp = ex[1]
+                        kindx = "val"
+                        # and the non-empty alternative only when begin value < that clamp
+                        of = ev.option_facts.get((evl, c), []) if evl[0] == "phi" else None
+                        if of is not None and not any(f[0] == "lt" and len(f) == 3 and unref(f[1]) == bv
+                                                      and unref(f[2]) == unref(ex[1]) for f in of):
+                            clamp = ("unknown", "non-empty alternative of the range extent is not chosen under begin value < end")
+            if clamp is None:
+                continue
+            found = True
+            cc = m.canon(unref(clamp))
+            good = False
+            if clamp[0] == "unknown":
+                good = False
+            elif kindx == "idx":
+                good = (cc == Lc)
+            else:
+                # value clamp conv(end) corresponds to LEN = end - start for begin value = begin + start
+                good = Lc is not None and Lc[0] == "call" and Lc[1] == "saturating_sub" and m.canon(unref(Lc[2][0])) == cc
+            if good:
+                out.append(Ob("COMPLETE", key, "ok", e.loc(), "extent is clamped to exactly LEN", True))
+            else:
+                out.append(Ob("COMPLETE", key, "viol", e.loc(),
+                              "the %s pull of %s clamps its extent to %s, which is not LEN (%s): reserved positions inside the "
+                              "source are not delivered" % (u.kind, u.world["name"],
+                                                            clamp[1] if clamp[0] == "unknown" else fmt(cc)[:80],
+                                                            fmt(Lc)[:80] if Lc else "?")))
+            break
+        if not found:
+            out.append(Ob("COMPLETE", key, "viol", u.body.file_line(), "cannot find the clamped extent of the %s pull of %s" % (
+                u.kind, u.world["name"])))
+    return out
